@@ -70,7 +70,8 @@ fn gen_site(rng: &mut Rng, ctx_scope: char, n: &mut u32) -> Site {
             if ctx_scope == 'L' && rng.below(10) == 0 {
                 let (g, _, _) = STD[rng.below(STD.len() as u64) as usize];
                 let (t, c) = operand(rng, 0);
-                return Site { text: format!("int {g} = 1; {g} {t};"), desc: format!("gc c0 0 {c}") };
+                // (in a block of its own, so that later sites of the same body still see the gate)
+                return Site { text: format!("if (true) {{ int {g} = 1; {g} {t}; }}"), desc: format!("gc c0 0 {c}") };
             }
             let (name, callee) = match rng.below(12) {
                 0 => ("c".to_string(), "c0".to_string()),
